@@ -152,6 +152,17 @@ def fam_c11(R, n):
             attrs = ['#[logos(subpattern s0 = %s)]' % rust_str(inner)]
             out.append(dict(family='c11-escapes', src=enum(attrs, ['#[regex(%s, priority = 3)] A,' % rust_str(pat), '#[regex(%s, priority = 2)] B,' % rust_str(ref)]),
                             meta=dict(pair=(0, 1), pattern=pat, reference=ref)))
+    # references from a skip pattern (both spellings), from a byte-string regex and from a pattern with ignore(case)
+    for sub in ['ab|c', '[0-9]+', '(?i)k']:
+        for shape in ['(?&s0)x', 'y(?&s0)', '<(?&s0)>+']:
+            ref = shape.replace('(?&s0)', '(?u:%s)' % sub)
+            attrs = ['#[logos(subpattern s0 = %s)]' % rust_str(sub)]
+            out.append(dict(family='c11-skip', src=enum(attrs + ['#[logos(skip(%s, priority = 3))]' % rust_str(shape)], ['#[regex(%s, priority = 2)] B,' % rust_str(ref)]),
+                            meta=dict(pair=(0, 1), pattern=shape, reference=ref)))
+            out.append(dict(family='c11-skip', src=enum(attrs + ['#[logos(skip %s)]' % rust_str(shape)], ['#[regex(%s, priority = 1)] B,' % rust_str(ref), '#[token("zzzzzzzzzzzz")] Z,']),
+                            meta=dict(pair=(0, 1), pattern=shape, reference=ref)))
+            out.append(dict(family='c11-icase', src=enum(attrs, ['#[regex(%s, priority = 3, ignore(case))] A,' % rust_str(shape), '#[regex(%s, priority = 2)] B,' % rust_str('(?i:%s)' % ref)]),
+                            meta=dict(pair=(0, 1), pattern=shape, reference='(?i:%s)' % ref)))
     # references inside non-ASCII text (byte offsets and character counts differ): before, after and between multi-byte characters,
     # with short and long tails
     for sub in ['[0-9]', 'ab|c', 'é', '[α-ω]+']:
